@@ -668,6 +668,23 @@ func (c *TermCtx) Table(vals []uint64, w int, idx *Term) *Term {
 	if idx.W < 63 && (uint64(1)<<uint(idx.W)) < uint64(len(vals)) {
 		vals = vals[:uint64(1)<<uint(idx.W)]
 	}
+	// callers guarantee idx < len(vals) (bounds are checked before any indexed read), so only the low
+	// bits of a wide index matter: narrow it, which keeps wide adders out of the lookup chain
+	if idx.W > 16 && len(vals) <= 1<<16 {
+		k := 1
+		for (1 << uint(k)) < len(vals) {
+			k++
+		}
+		idx = c.Extract(idx, k-1, 0)
+		if idx.IsConst() {
+			return c.Const(w, vals[idx.C])
+		}
+		if len(vals) < 1<<uint(k) {
+			nv := make([]uint64, 1<<uint(k))
+			copy(nv, vals)
+			vals = nv
+		}
+	}
 	var sb strings.Builder
 	sb.WriteString(strconv.Itoa(w))
 	sb.WriteByte(':')
